@@ -34,6 +34,26 @@ _CMPOPS = {
 }
 
 
+def _leave_kind(stmts):
+    """'raise' / 'return' / 'continue' / 'break' if the block certainly leaves that way (syntactically)."""
+    if not stmts:
+        return None
+    last = stmts[-1]
+    if isinstance(last, ast.Raise):
+        return 'raise'
+    if isinstance(last, ast.Return):
+        return 'return'
+    if isinstance(last, ast.Continue):
+        return 'continue'
+    if isinstance(last, ast.Break):
+        return 'break'
+    if isinstance(last, ast.If) and last.orelse:
+        a, b = _leave_kind(last.body), _leave_kind(last.orelse)
+        if a and b:
+            return a if a == b else 'return'
+    return None
+
+
 def _canon_guard(c, p):
     if c[0] == 'not' or c[0] == 'or' or (c[0] == 'cmp' and c[1] in ('!=', '<=', 'notin', 'isnot')):
         n = T.not_(c)
@@ -520,7 +540,9 @@ class FuncAnalysis:
         # of a conditional both start from the state at the branch point, so that swapping the arms
         # does not renumber them
         cnt_pre = self._counters()
-        self._guards.append((c, True, 'if'))
+        # an arm whose sibling leaves the block is a path guard of that kind, whether the sibling is
+        # written as `else:` or the arm simply follows the conditional
+        self._guards.append((c, True, _leave_kind(s.orelse) or 'if'))
         st_a = self._block(s.body)
         res_a = list(self._last_residual)
         self._guards.pop()
@@ -528,7 +550,7 @@ class FuncAnalysis:
         cnt_a = self._counters()
         self._restore_counters(cnt_pre)
         self.env = dict(pre)
-        self._guards.append((c, False, 'if'))
+        self._guards.append((c, False, st_a or 'if'))
         self._last_residual = []
         st_b = self._block(s.orelse) if s.orelse else None
         res_b = list(self._last_residual)
@@ -1143,6 +1165,10 @@ class FuncAnalysis:
 
     def _e_Call(self, n, stmt=False):
         f = self.ev(n.func)
+        if not n.args and not n.keywords and f in (T.G('list'), T.G('dict')):
+            return self._new('list' if f == T.G('list') else 'dict')      # list() is [] , dict() is {}
+        if f == T.G('dict') and not n.args and n.keywords and all(k.arg is not None for k in n.keywords):
+            return ('dict', tuple(('kv', T.C(k.arg), self.ev(k.value)) for k in n.keywords))
         args = []
         for a in n.args:
             if isinstance(a, ast.Starred):
